@@ -33,10 +33,10 @@ func (c07Stream) Name() string               { return "c07" }
 func (c07Stream) CaseTimeout() time.Duration { return 60 * time.Second }
 func (c07Stream) NoModel() bool              { return true }
 func (c07Stream) Rule() string {
-	return "one fault per scenario - a panicking handler for each concurrently dispatched operation (bind, search, modify, add, delete, extended), for StartTLS, for the unbind route and for the default route, and for a bind on a TLS listener that requests but does not verify client certificates; a connection reset; a truncated frame followed by silence; a client that sends searches with large results and never reads, also one whose requests are served by the default route; descriptor exhaustion at accept (RLIMIT_NOFILE lowered in the worker); 48 connections whose read loops end on a malformed frame while a slow request of theirs is still being handled, with 48 new connections arriving at once; a client of a TLS listener that sends a truncated first record and stalls; a frame of 2^20 nested indefinite-length sequence headers (goroutine stack limit lowered to 32 MiB in the worker) - injected while two bystander connections issue requests continuously; oracle: the worker process survives, the bystanders keep receiving correct responses during and after the fault, and a new connection is accepted and served afterwards; non-trivial = every scenario, distinct by fault"
+	return "one fault per scenario - a panicking handler for each concurrently dispatched operation (bind, search, modify, add, delete, extended), for StartTLS, for the unbind route and for the default route, 512 handlers on eight connections panicking in the same instant, and for a bind on a TLS listener that requests but does not verify client certificates; a connection reset; a truncated frame followed by silence; a client that sends searches with large results and never reads, also one whose requests are served by the default route; descriptor exhaustion at accept (RLIMIT_NOFILE lowered in the worker); 48 connections whose read loops end on a malformed frame while a slow request of theirs is still being handled, with 48 new connections arriving at once; a client of a TLS listener that sends a truncated first record and stalls; a frame of 2^20 nested indefinite-length sequence headers (goroutine stack limit lowered to 32 MiB in the worker) - injected while two bystander connections issue requests continuously; oracle: the worker process survives, the bystanders keep receiving correct responses during and after the fault, and a new connection is accepted and served afterwards; non-trivial = every scenario, distinct by fault"
 }
 
-var c07Faults = []string{"panic-bind", "panic-search", "panic-modify", "panic-add", "panic-delete", "panic-extended", "panic-starttls", "panic-unbind", "panic-default", "rst", "truncated", "notreading", "notreading-default", "panic-anycert", "fdexhaust", "deepnest", "latewriter", "tlsstall"}
+var c07Faults = []string{"panic-storm", "panic-bind", "panic-search", "panic-modify", "panic-add", "panic-delete", "panic-extended", "panic-starttls", "panic-unbind", "panic-default", "rst", "truncated", "notreading", "notreading-default", "panic-anycert", "fdexhaust", "deepnest", "latewriter", "tlsstall"}
 
 func (c07Stream) Generate(rng *rand.Rand, n int, thorough bool) []Case {
 	var cs []Case
@@ -53,6 +53,9 @@ func (c07Stream) Impl(c Case) string {
 	tlsConfigs()
 	payload := strings.Repeat("q", 50000)
 	victimDN := "cn=victim"
+	const stormTotal = 8 * 64
+	var stormN int32
+	stormGo := make(chan struct{})
 	h := func(w *gldap.ResponseWriter, r *gldap.Request) {
 		isVictim := false
 		switch m := r.VerifMessage().(type) {
@@ -78,6 +81,16 @@ func (c07Stream) Impl(c Case) string {
 			isVictim = m.DN == victimDN
 		case *gldap.ExtendedOperationMessage:
 			isVictim = r.VerifMessage().GetID() == 666
+		}
+		if isVictim && fault == "panic-storm" {
+			// every handler of the storm waits until all of them have been entered (or 2 s), then all panic at once
+			if atomic.AddInt32(&stormN, 1) == stormTotal {
+				close(stormGo)
+			}
+			select {
+			case <-stormGo:
+			case <-time.After(2 * time.Second):
+			}
 		}
 		if isVictim && strings.HasPrefix(fault, "panic-") {
 			// the value a handler panics with is the handler's business: a string, an error, a typed nil pointer whose
@@ -206,6 +219,29 @@ func (c07Stream) Impl(c Case) string {
 			frame = Seq(Int(2, 666), C(1, 23, P(2, 0, []byte("9.9.9.9")))).Ser()
 		case "extended":
 			frame = Seq(Int(2, 666), C(1, 23, P(2, 0, []byte("1.3.6.1.4.1.4203.1.11.3")))).Ser()
+		case "storm":
+			// eight connections pipeline 64 searches each; all 512 handlers panic in the same instant, each on its own
+			// goroutine (the recovery of one request must not depend on what the others are doing)
+			for v := 0; v < 8; v++ {
+				vc, err := net.DialTimeout("tcp", sut.addr, time.Second)
+				if err != nil {
+					continue
+				}
+				hold = append(hold, vc)
+				var buf []byte
+				for j := 0; j < 64; j++ {
+					r := Req{Kind: "search", ID: int64(1000 + v*64 + j), DN: victimDN, Scope: 2, Filter: "(cn=x)"}
+					nd, _ := r.Node()
+					buf = append(buf, nd.Ser()...)
+				}
+				_, _ = vc.Write(buf)
+			}
+			select {
+			case <-stormGo:
+			case <-time.After(3 * time.Second):
+			}
+			time.Sleep(50 * time.Millisecond)
+			frame = opFrame("bind", 1)
 		case "anycert":
 			r := Req{Kind: "bind", ID: 666, DN: victimDN, Pass: "p"}
 			nd, _ := r.Node()
@@ -357,6 +393,11 @@ func (c07Stream) Impl(c Case) string {
 	<-doneBy
 	<-doneBy
 	victim.close()
+	if fault == "panic-storm" {
+		for _, c := range hold {
+			c.Close()
+		}
+	}
 	sut.finish()
 	return verdict
 }
